@@ -130,6 +130,62 @@ def run(prog, rep):
                     acquiring.add(name)
         nl_helpers = {name for name in store.methods if name.endswith('_nl')}
 
+        # private helpers that do not take the lock themselves inherit the lock state of their callers: their entry depths
+        # are the depths at their call sites inside the store class (fixpoint; a helper nobody calls, or one that is also
+        # referenced from outside the store class, is entered at depth 0 as well)
+        def plain_transfer(node, depth):
+            if node.kind == 'stmt' and node.ast is not None:
+                op = lock_op(node.ast, locks)
+                if op == 'acquire':
+                    return (depth + 1,) if depth < 1 else (depth,)
+                if op == 'release':
+                    return (depth - 1,) if depth > 0 else (depth,)
+            if node.kind == 'with_enter' and is_lock_with(node.ast, locks):
+                return (depth + 1,) if depth < 1 else (depth,)
+            if node.kind == 'with_exit' and is_lock_with(node.ast, locks):
+                return (max(depth - 1, 0),)
+            return (depth,)
+
+        def _private(n_):
+            return n_.startswith('_') and not (n_.startswith('__') and n_.endswith('__'))
+        inheriting = {n_ for n_ in store.methods if _private(n_) and n_ not in acquiring and n_ not in nl_helpers}
+        entry_depths = {n_: ({1} if n_ in nl_helpers else set() if n_ in inheriting else {0}) for n_ in store.methods}
+        outside = set()
+        for n_ in ast.walk(mod.tree):
+            if isinstance(n_, ast.Attribute) and n_.attr in inheriting and not (isinstance(n_.value, ast.Name) and n_.value.id == 'self'):
+                outside.add(n_.attr)
+        for n_ in outside:
+            entry_depths[n_].add(0)
+        cfgs = {}
+        changed = True
+        rounds = 0
+        while changed and rounds < 20:
+            changed = False
+            rounds += 1
+            for n_, f_ in store.methods.items():
+                if n_ == '__init__' or not entry_depths[n_]:
+                    continue
+                if n_ not in cfgs:
+                    cfgs[n_] = CFG(f_, may_raise=may_raise)
+                st_ = solve_forward(cfgs[n_], sorted(entry_depths[n_]), plain_transfer)
+                for node in cfgs[n_].nodes:
+                    if node.ast is None or node.kind in ('join', 'handler', 'entry', 'exit', 'raise_exit', 'with_enter', 'with_exit'):
+                        continue
+                    ds = st_.get(node.id) or set()
+                    if not ds:
+                        continue
+                    for sub in walk_no_nested(node.ast):
+                        if isinstance(sub, ast.Call):
+                            ch = attr_chain(sub.func)
+                            if ch and len(ch) == 2 and ch[0] == 'self' and ch[1] in inheriting and not ds <= entry_depths[ch[1]]:
+                                entry_depths[ch[1]] |= ds
+                                changed = True
+        for n_ in inheriting:
+            if not entry_depths[n_]:
+                entry_depths[n_] = {0}
+            rep.note(f'{store.name}.{n_}: private helper without locking of its own, entered at lock depth(s) '
+                     f'{sorted(entry_depths[n_])} (from its call sites)')
+
         for name, fn in store.methods.items():
             if name == '__init__':
                 continue
@@ -174,9 +230,8 @@ def run(prog, rep):
                     return (max(depth - 1, 0),)
                 return (depth,)
 
-            init_depth = 1 if name in nl_helpers else 0
             parents = {}
-            state = solve_forward(cfg, [init_depth], transfer, parents=parents)
+            state = solve_forward(cfg, sorted(entry_depths[name]), transfer, parents=parents)
 
             if name in acquiring:
                 rep.instance('R1', fq, detail={'file': mod.relpath, 'cfg_nodes': len(cfg.nodes),
